@@ -3,7 +3,7 @@
    Statements only; proofs are in Html/HtmlInv.v, Html/HtmlRound.v, Html/HtmlOps.v. *)
 From Coq Require Import List NArith Bool Arith.
 From MV Require Import Base.PyStr Base.Res Html.HtmlTypes Gen.Html Html.HtmlModel Html.HtmlStore
-  Html.HtmlInv Html.HtmlRound Html.HtmlOps Html.HtmlIso.
+  Html.HtmlInv Html.HtmlRound Html.HtmlOps Html.HtmlIso Html.SrcPrims Gen.HtmlSrc Html.HtmlSrcProofs.
 Import ListNotations.
 Local Open Scope nat_scope.
 
@@ -141,6 +141,55 @@ Theorem C16_strip_step_exact : forall (name : str) (evs : list event) (t : tree)
                = option_map (fun c => (c_kind c, c_name c, c_attrs c, c_data c)) (nth_error st j)).
 Proof. exact strip_exact_built. Qed.
 Print Assumptions C16_strip_step_exact.
+
+(* ---- round 3: the same statements for the code REGENERATED from parse_html.py ----
+   Gen/HtmlSrc.v is written on every run by gen/c16_src.py (statement-by-statement translation of
+   Element.insert, Tree.last / nest_tag / nest_xtag / nest_vtag / nest_terminal / enclose, the ten
+   HtmlToAst handlers, Element.walk / deepcopy (both classes) / reset_children / strip / find);
+   Html/HtmlSrcProofs.v proves each regenerated function equal to its hand-written model
+   (append_src_eq .. find_src_eq); these refinement lemmas are the obligations a source edit breaks. *)
+
+Theorem C16_build_total_src : forall (name : str) (evs : list event),
+  exists t, build_src (init_tree name) evs = Ok t
+            /\ t_outmost t = 0
+            /\ (exists s, t_stack t = s ++ [t_outmost t])
+            /\ Forall (fun i => i < length (t_cells t)) (t_stack t).
+Proof. exact build_total_src. Qed.
+Print Assumptions C16_build_total_src.
+
+Theorem C16_tree_consistent_src : forall (name : str) (evs : list event) (t : tree),
+  build_src (init_tree name) evs = Ok t ->
+  let st := t_cells t in
+  (exists c, nth_error st 0 = Some c /\ c_parent c = None)
+  /\ (forall p cp k, nth_error st p = Some cp -> In k (c_children cp) ->
+        p < k /\ k < length st /\ parent_of st k = Some p)
+  /\ (forall k c, nth_error st k = Some c -> k <> 0 ->
+        exists p, c_parent c = Some p /\ count_occ Nat.eq_dec (children_of st p) k = 1)
+  /\ exists w, walk_src (length st) st (t_outmost t) false = Ok w
+               /\ NoDup (t_outmost t :: w)
+               /\ (forall j, In j (t_outmost t :: w) <-> j < length st).
+Proof. exact tree_consistent_src. Qed.
+Print Assumptions C16_tree_consistent_src.
+
+Theorem C16_find_is_filter_src : forall (name : str) (evs : list event) (t : tree) (i : nat)
+    (identifier : ident) (qa : option attrs) (qc : option (list str)) (include_self recurse : bool),
+  build_src (init_tree name) evs = Ok t -> i < length (t_cells t) ->
+  let st := t_cells t in
+  let q := mkquery identifier qa qc include_self recurse in
+  exists w, walk_src (length st) st i false = Ok w
+            /\ (forall j, In j w <-> Desc st i j) /\ NoDup w
+            /\ find_src (length st) st i identifier qa qc include_self recurse
+               = Ok (filter (matches_at st q) (find_domain st i q w)).
+Proof. exact find_is_filter_src. Qed.
+Print Assumptions C16_find_is_filter_src.
+
+Theorem C16_copy_strip_pure_src : forall (st : store) (i : nat) (fuel : nat),
+  (forall st' n, deepcopy_src fuel st i = Ok (n, st') ->
+     n = length st /\ (forall j, j < length st -> nth_error st' j = nth_error st j) /\ length st < length st')
+  /\ (forall recurse st' n, strip_src fuel st i false recurse = Ok (n, st') ->
+     n = length st /\ (forall j, j < length st -> nth_error st' j = nth_error st j)).
+Proof. exact copy_strip_pure_src. Qed.
+Print Assumptions C16_copy_strip_pure_src.
 
 (* ---- non-vacuity ---- *)
 Local Open Scope N_scope.
